@@ -1014,4 +1014,23 @@ theorem C13_reachable_creation_string_value (ops : List (Op ⊕ Forest.COp)) :
 example : (creationRun [.inl (.newElement 2), .inr (.appendNew 0 (.text ['a'])), .inr (.appendNew 0 (.element 2)),
     .inr (.appendNew 0 (.text ['b']))]).roots.map (fun r => (canon r.erase).text) = [['a', 'b']] := by decide +kernel
 
+/-- ⟦C13_reachable_creation_variants⟧ The variants (`advanced_deep_equal` unfiltered, `deep_equal_children`,
+    `deep_equal_xpath`) between any two nodes of the trees a history with the convenience calls reaches
+    (`C13_reachable_variants` for these histories). -/
+theorem C13_reachable_creation_variants (ops : List (Op ⊕ Forest.COp)) :
+    ∀ r₁ ∈ (creationRun ops).roots, ∀ r₂ ∈ (creationRun ops).roots,
+    ∀ (p₁ p₂ : Path) (a b : Tree), r₁.erase.at? p₁ = some a → r₂.erase.at? p₂ = some b →
+      (∀ cmp : TextCmp, advancedDeepEqual (fun _ => true) cmp a b = Canon.rel cmp (canon a) (canon b)) ∧
+      (deepEqualChildren a b = true ↔ (canon a).kids = (canon b).kids) ∧
+      (((a.value.isElement = true ∧ b.value.isElement = true) ∨ (a.value = .document ∧ b.value = .document)) →
+        deepEqualXpath strEq a b = deepEqual a.stripCommentsPis b.stripCommentsPis ∧
+        ∀ cmp : TextCmp, deepEqualXpath cmp a b =
+          advancedDeepEqual (fun _ => true) cmp a.stripCommentsPis b.stripCommentsPis) := by
+  intro r₁ h₁ r₂ h₂ p₁ p₂ a b ha hb
+  obtain ⟨va, la, da, xa, _, _⟩ := C13_reachable_creation_valid ops r₁ h₁ p₁ a ha
+  obtain ⟨vb, lb, db, xb, _, _⟩ := C13_reachable_creation_valid ops r₂ h₂ p₂ b hb
+  exact ⟨fun cmp => C13_advanced_all cmp a b va vb, C13_children a b va vb,
+    fun h => ⟨C13_xpath_stripped a b va vb la lb da db h,
+      fun cmp => C13_xpath_stripped_cmp cmp a b xa xb da db h⟩⟩
+
 end XotModel.Props
